@@ -9,7 +9,7 @@ from concurrent.futures import ThreadPoolExecutor
 from multiprocessing import Pool
 
 from . import curves, tables, toy
-from .core import Ctx, MachineryError, NCPU
+from .core import Ctx, Guarded, MachineryError, NCPU
 
 INST = ["secp43", "secp67", "secp79"]
 VS = [0, 1, 26, 27, 28, 29, 35, 36]
@@ -115,8 +115,8 @@ def toy_tables(ctx: Ctx, what=("sign", "recover")):
             for c in range(0, len(rs), 4):
                 jobs_r.append((cname, ei, VS, rs[c:c + 4], ss, zr))
     with Pool(NCPU) as pool:
-        rows = [r for part in pool.map(_sign_job, jobs_s, chunksize=1) for r in part]
-        rows += [r for part in pool.map(_rec_job, jobs_r, chunksize=1) for r in part]
+        rows = [r for part in pool.map(Guarded(_sign_job), jobs_s, chunksize=1) for r in part]
+        rows += [r for part in pool.map(Guarded(_rec_job), jobs_r, chunksize=1) for r in part]
     if "sign" in what:
         for ei, cname in enumerate(INST, start=1):
             m = curves.secp_module(cname)
